@@ -1,7 +1,7 @@
 /-
   Props/C09Tables.lean — property C09, the factory clause: "the factory returns a class with exactly
   the requested features or raises ValueError for unsupported combinations", and the class
-  compositions.  Closed `decide` goals over `Generated/Tables.lean`, which `harness/extract_tables.py`
+  compositions, constructor and method signatures.  Closed `decide` goals over `Generated/Tables.lean`, which `harness/extract_tables.py`
   rewrites from the LIVE classes before the C09 check builds this module.
 
   Deliberately NOT imported by `Props.lean`: a change of the library's classes that makes a `decide`
@@ -81,6 +81,53 @@ defaults**, and forwards unknown keywords (`**kwargs`). -/
 theorem C09_ctor_compatible :
     machineParams.length = 18 ∧
     ∀ r ∈ classes, machineParams.isPrefixOf r.ctor = true ∧ r.ctor.getLast? = some ("**kwargs", "") := by
+  decide
+
+/-! ### overridden methods keep the base method's parameters -/
+
+/-- the named parameters in front of the first `*args` / `**kwargs` -/
+def Gen.namedPrefix (l : List Param) : List Param := l.takeWhile (·.kind == 0)
+
+/-- same name; same default, or the base parameter is required (an override may add a default) -/
+def Gen.paramOk (b p : Param) : Bool := p.name == b.name && (p.default == b.default || b.default == "")
+
+/-- every call that is valid for the base method — positional, in the base order, or by keyword — means
+the same for the override: the base's named parameters are, in order, the first named parameters of
+the override (which may append more), unless the override swallows the rest with `*args` AND
+`**kwargs`; a base `*args` / `**kwargs` is kept -/
+def Gen.sigCompatible (b p : List Param) : Bool :=
+  let bn := b.filter (·.kind == 0)
+  let pn := namedPrefix p
+  (List.zipWith paramOk bn pn).all id &&
+  (bn.length ≤ pn.length || (p.any (·.kind == 1) && p.any (·.kind == 2))) &&
+  b.all fun x => x.kind == 0 || p.any (·.kind == x.kind)
+
+/-- **No override changes what a call of the base API means.**  Every function that replaces a method
+of `Machine` (public or private), `State`, `Event` or `Transition` anywhere in the MRO of a predefined
+class or of its resolved state / event / transition class takes the base method's parameters in the
+base order with the base defaults.  (The library itself calls these methods positionally in the base
+order — `add_transitions` expands a list-form transition with `add_transition(*entry)`,
+`_create_transition(*args)`, … — so a drift here changes behaviour without any class noticing.)
+The table is not empty: it covers the diagram, markup, hierarchy, locking and asyncio overrides of
+`add_transition` and `add_model`. -/
+theorem C09_override_signatures :
+    (∀ r ∈ overrides, sigCompatible r.baseParams r.params = true) ∧
+    (∀ o ∈ ["GraphMachine", "MarkupMachine", "HierarchicalMachine"],
+      ∃ r ∈ overrides, r.owner = o ∧ r.method = "add_transition" ∧ r.base = "Machine") ∧
+    (∀ o ∈ ["GraphMachine", "LockedMachine", "HierarchicalMachine", "AsyncMachine"],
+      ∃ r ∈ overrides, r.owner = o ∧ r.method = "add_model" ∧ r.base = "Machine") := by
+  decide
+
+/-- the criterion rejects the drift it is meant for: `(…, conditions, unless, prepare, before, after)`
+against `Machine.add_transition`'s `(…, conditions, unless, before, after, prepare)` -/
+example :
+    sigCompatible
+      [⟨"dest", "", 0⟩, ⟨"unless", "None", 0⟩, ⟨"before", "None", 0⟩, ⟨"after", "None", 0⟩, ⟨"prepare", "None", 0⟩, ⟨"kwargs", "", 2⟩]
+      [⟨"dest", "", 0⟩, ⟨"unless", "None", 0⟩, ⟨"prepare", "None", 0⟩, ⟨"before", "None", 0⟩, ⟨"after", "None", 0⟩, ⟨"kwargs", "", 2⟩]
+      = false ∧
+    sigCompatible [⟨"a", "", 0⟩, ⟨"b", "None", 0⟩] [⟨"args", "", 1⟩, ⟨"kwargs", "", 2⟩] = true ∧
+    sigCompatible [⟨"a", "", 0⟩, ⟨"b", "None", 0⟩] [⟨"a", "None", 0⟩, ⟨"b", "None", 0⟩, ⟨"c", "1", 0⟩] = true ∧
+    sigCompatible [⟨"a", "", 0⟩, ⟨"b", "None", 0⟩] [⟨"a", "", 0⟩, ⟨"b", "0", 0⟩] = false := by
   decide
 
 end TM
